@@ -52,6 +52,8 @@ func (c *Config) isTarget(p string) bool {
 	return strings.HasPrefix(p, c.TargetPrefix) && !strings.HasSuffix(p, "/zzverif")
 }
 
+func (c *Config) isTargetInit(p string) bool { return strings.HasPrefix(p, c.TargetPrefix) }
+
 func (c *Config) resolve(prog *ssa.Program, to string) *ssa.Function {
 	k := strings.LastIndex(to, ":")
 	pkg := prog.ImportedPackage(to[:k])
@@ -165,6 +167,7 @@ func Explore(mainpkg *ssa.Package, sizes types.Sizes, fnName string, cfg *Config
 		cfg.AllocCap = 64
 	}
 
+	tmpl := buildTemplate(mainpkg, sizes, cfg)
 	var mu sync.Mutex
 	cond := sync.NewCond(&mu)
 	var queue [][]Decision
@@ -303,7 +306,7 @@ func Explore(mainpkg *ssa.Package, sizes types.Sizes, fnName string, cfg *Config
 				mu.Unlock()
 
 				s.vector = vec
-				pr := runOne(mainpkg, sizes, fnName, cfg, s, prefix)
+				pr := runOne(mainpkg, sizes, fnName, cfg, s, prefix, tmpl)
 
 				mu.Lock()
 				outstanding--
@@ -345,7 +348,7 @@ type pathState struct {
 	crashArmed bool
 }
 
-func runOne(mainpkg *ssa.Package, sizes types.Sizes, fnName string, cfg *Config, s *Session, prefix []Decision) (pr *pathResult) {
+func runOne(mainpkg *ssa.Package, sizes types.Sizes, fnName string, cfg *Config, s *Session, prefix []Decision, tmpl *interpreter) (pr *pathResult) {
 	pr = &pathResult{}
 	i := &interpreter{
 		prog:       mainpkg.Prog,
@@ -361,20 +364,13 @@ func runOne(mainpkg *ssa.Package, sizes types.Sizes, fnName string, cfg *Config,
 		cov:        map[*ssa.Function]int{},
 		cfg:        cfg,
 		ps:         &pathState{assumes: map[string][2]int{}},
+		tmpl:       tmpl,
 	}
 	i.sc.schedChoice = cfg.SchedChoice
 	s.beginPath(prefix)
 	runtimePkg := i.prog.ImportedPackage("runtime")
 	i.runtimeErrorString = runtimePkg.Type("errorString").Object().Type()
 	initReflect(i)
-	for _, pkg := range i.prog.AllPackages() {
-		for _, m := range pkg.Members {
-			if v, ok := m.(*ssa.Global); ok {
-				cell := zero(tpDeref(v.Type()))
-				i.globals[v] = &cell
-			}
-		}
-	}
 	finish := func() {
 		i.sc.shutdown()
 		pr.newPaths = s.newPaths
@@ -592,3 +588,36 @@ func (i *interpreter) reportViolation(kind, label string, extra *Term) {
 }
 
 func tpDeref(t types.Type) types.Type { return t.Underlying().(*types.Pointer).Elem() }
+
+// buildTemplate runs the package initialisers once; the resulting non-target
+// globals are shared (read-only) by every path of this exploration.
+func buildTemplate(mainpkg *ssa.Package, sizes types.Sizes, cfg *Config) (t *interpreter) {
+	s := NewSession(cfg.Solver)
+	s.vector = map[string]uint64{}
+	s.beginPath(nil)
+	i := &interpreter{
+		prog:      mainpkg.Prog,
+		globals:   make(map[*ssa.Global]*value),
+		sizes:     sizes,
+		s:         s,
+		sc:        newSched(),
+		maxSteps:  1 << 40,
+		extCache:  map[*ssa.Function]externalFn{},
+		replCache: map[*ssa.Function]*ssa.Function{},
+		cov:       map[*ssa.Function]int{},
+		cfg:       cfg,
+		ps:        &pathState{assumes: map[string][2]int{}},
+	}
+	runtimePkg := i.prog.ImportedPackage("runtime")
+	i.runtimeErrorString = runtimePkg.Type("errorString").Object().Type()
+	initReflect(i)
+	defer func() {
+		if r := recover(); r != nil {
+			fmt.Fprintf(os.Stderr, "gosym: package initialisation failed in template: %v\n", r)
+			t = nil
+		}
+		i.sc.shutdown()
+	}()
+	call(i, nil, token.NoPos, mainpkg.Func("init"), nil)
+	return i
+}
